@@ -398,8 +398,7 @@ def montecarlo(prog, rep):
             if isinstance(st, ast.Assign) and isinstance(st.targets[0], ast.Subscript) and cfg.enclosing_loops(st) and ("handler", G(f"{JM}.CouldNotSampleError")) not in path_conditions(prog, fn, b).of(st):
                 lp = cfg.enclosing_loops(st)[-1]
                 i = ("idx", f"{lp.lineno}:{lp.col_offset}", "enumerate")
-                z = ("sub", ("call", G("zip"), (P(first), P("given")), ()), i)
-                val, giv = ("item", z, 0), ("item", z, 1)
+                val, giv = ("sub", P(first), i), ("sub", P("given"), i)  # (x_i, given_i) of enumerate(zip(x, given))
                 idx = b.term(st.targets[0].slice, st)
                 base = b.term(st.targets[0].value, st)
                 v = b.term(st.value, st)
